@@ -5,6 +5,7 @@ MCRstOps == [op : {"RPTRST"}, basic : {None, 0, 2, 3, 4, 5}, freq : {None, 0, 2}
 MCSchedOps == [op : {"RPTSCHED"}, nothing : BOOLEAN, restart : {None, 0, 2, 3}, mn : {Empty}]
 MCSolOps == [op : {"RPTSOL"}, restart : {None, 2}, mn : MCMn]
 MCStart == {10}
+MCIntOps == [op : {"RPTRSTI"}, ints : {<<0>>, <<3, 0, 1>>}] \cup [op : {"RPTSCHEDI"}, ints : {<<0, 0, 0, 0, 0, 0, 2>>}]
 MCDms == {0, 1, 14}
 QRstOps == [op : {"RPTRST"}, basic : {None, 0, 3, 4, 5}, freq : {None, 2}, mn : {Empty}]
 QSchedOps == [op : {"RPTSCHED"}, nothing : BOOLEAN, restart : {None, 2, 3}, mn : {Empty}]
